@@ -181,7 +181,9 @@ def run(F, R, tier):
     r7 = R.rule("C03-R7", "T5", "the Presentation returned is rebuilt from the verified claims without silently dropping a signed member: C07-R2 (field coverage) and "
                 "C07-R3 (check_consistency rejects a vp member whose registered claim is absent) hold")
     L.depends_on(r7, F, tier, ["C07-R2", "C07-R3"], "try_into_presentation returns what was signed")
-    r7.floor(2)
+    # … and the issuance time the bound is applied to is the `nbf` claim when there is one (C07-R4: to_issuance_date = nbf, else iat, each through from_unix)
+    L.depends_on(r7, F, tier, ["C07-R4"], "the issuance date compared with latest_issuance_date is to_issuance_date() = nbf, else iat")
+    r7.floor(3)
 
     # ------------------------------------------------------------------ R6 CoreDocument::verify_jws
     r6 = R.rule("C03-R6", "T2+T3+T6+T4", "verify_jws: nonce equality dominates; method query = options.method_id or protected kid; resolve_method(query, options.method_scope) on self; verify(verifier, that key) result returned; DIDUrlQuery::matches table")
